@@ -110,7 +110,7 @@ func run(c *harness.Ctx, i int) {
 		stateAccepted := false
 		opt := desync.SparseFileOptions{StateSaveFile: state}
 		if s > 0 {
-			kind := []string{"same", "same", "state-absent", "cache-absent", "cache-shorter", "cache-longer", "state-wrong-length", "preload", "foreign-cache-no-state", "failed-start"}[rng.Intn(10)]
+			kind := []string{"same", "same", "state-absent", "cache-absent", "cache-shorter", "cache-longer", "state-wrong-length", "preload", "foreign-cache-no-state", "failed-start", "foreign-cache-init-state"}[rng.Intn(11)]
 			restarts = append(restarts, kind)
 			st, _ := os.Stat(cache)
 			switch kind {
@@ -138,6 +138,23 @@ func run(c *harness.Ctx, i int) {
 				rng.Read(junk)
 				os.WriteFile(cache, junk, 0644)
 				os.Remove(state)
+				doneAtSave = nil
+			case "foreign-cache-init-state":
+				// a file of the right length that holds nothing of the blob sits at the cache path (left by a session
+				// without a state file, say), the save state is absent or empty (first start with that option, a
+				// writer that died), and the state to initialise from - taken on another host - marks every chunk
+				junk := make([]byte, len(blob))
+				if rng.Intn(2) == 0 {
+					rng.Read(junk)
+				}
+				os.WriteFile(cache, junk, 0644)
+				os.Remove(state)
+				if rng.Intn(2) == 0 {
+					os.WriteFile(state, nil, 0644)
+				}
+				os.WriteFile(initState, bytes.Repeat([]byte{0xff}, (len(idx.Chunks)+7)/8), 0644)
+				opt.StateInitFile = initState
+				opt.StateInitConcurrency = 1 + rng.Intn(4)
 				doneAtSave = nil
 			case "failed-start":
 				// the cache file is gone, the saved state is still there, and a start in between fails after it has
@@ -392,6 +409,13 @@ func (w *world) handle(rng *rand.Rand, sf *desync.SparseFile, ff *dsu.FuseFile, 
 		n := rng.Intn(int(w.sz.Max)*3 + 1)
 		if rng.Intn(12) == 0 {
 			n = 0
+		}
+		if rng.Intn(8) == 0 && L > 0 {
+			// one read over dozens of chunks (a large buffer, `cat` of the mounted file), from anywhere
+			n = rng.Intn(int(L) + 1)
+			if rng.Intn(2) == 0 {
+				n = int(L)
+			}
 		}
 		w.mu.Lock()
 		injBefore := w.injected
